@@ -62,6 +62,14 @@ def _ca_of(op):
 
 
 def classify(name, case, msg):
+    """a case the region predicates cannot even parse is in no region"""
+    try:
+        return _classify(name, case, msg)
+    except Exception:  # noqa: BLE001
+        return None
+
+
+def _classify(name, case, msg):
     fam, _, op = name.partition(":")
     t = np.dtype(case["idx_dtype"])
     shape = case["shape"]
@@ -95,15 +103,17 @@ def classify(name, case, msg):
     # F-gcxs-join-rows: Excluded_gcxsJoin — the joined array has more rows than its indptr dtype numbers
     if fam == "gcxs-join" and "concatenate" in op and (wrong or "invalid entry in coordinates array" in msg):
         ca = _ca_of(op)
-        a = int(re.search(r"concatenate (\d+)", op).group(1))
-        dt0, _, _ = _gcxs_dtype(case, ca)
-        if ca != (a,):  # change_compressed_axes((a,)) -> _transpose -> get_out_dtype
-            rows = shape[a]
-            cols = _prod(shape) // rows
-            dt0 = out_dtype(dt0, max(rows, cols, case["nnz"]))
-        dt1 = out_dtype(dt0, 2 * case["nnz"])
-        if not fits(dt1, 2 * shape[a]):
-            return "F-gcxs-join-rows"
+        ma = re.search(r"concatenate (\d+)", op)
+        if ca is not None and ma is not None:
+            a = int(ma.group(1))
+            dt0, _, _ = _gcxs_dtype(case, ca)
+            if ca != (a,):  # change_compressed_axes((a,)) -> _transpose -> get_out_dtype
+                rows = shape[a]
+                cols = _prod(shape) // rows
+                dt0 = out_dtype(dt0, max(rows, cols, case["nnz"]))
+            dt1 = out_dtype(dt0, 2 * case["nnz"])
+            if not fits(dt1, 2 * shape[a]):
+                return "F-gcxs-join-rows"
     # F-gcxs-reduce-rows: Excluded_reduceRowIds — row numbers of the regrouped array in the original indptr dtype
     if fam == "gcxs-reduce" and (wrong or "invalid entry" in msg):
         ca = _ca_of(op)
